@@ -80,6 +80,9 @@ async def roundtrip(version, nv3, ni, node, prior=None, refuse=None):
                     out["prior_aborted"] = type(ex).__name__
             else:
                 await app.write_network_info(network_info=p_ni, node_info=p_node)
+                if len(prior) > 2 and prior[2] == "loaded":
+                    # the application has been running on that earlier network: its state holds what it loaded from the NCP
+                    await app.load_network_info(load_devices=True)
             out["prior_fc"], out["prior_keys"] = st.nwk_fc, sum(1 for k in st.keys if k is not None)
         w_ni, w_node = copy.deepcopy(ni), copy.deepcopy(node)
         out["mfg_burnt_before"] = st.mfg_custom is not None
@@ -231,8 +234,10 @@ def cases(ctx):
                     prior = (pr[0], pr[1], "aborted")
                     ni.key_table = ni.key_table[:1]
                 if prior is not None and len(prior) == 2 and i % 4 == 1:
-                    prior[0].network_key.tx_counter = rng.randint(1, 1 << 31)  # a used stick, then a backup with a fresh counter
-                    ni.network_key.tx_counter = 0
+                    prior[0].network_key.tx_counter = rng.randint(1 << 20, 1 << 31)  # a used stick, then a backup with a fresh counter
+                    ni.network_key.tx_counter = rng.choice([0, 4096])
+                    if i % 8 == 1:
+                        prior = (prior[0], prior[1], "loaded")   # ... on which this very application object has been running
                 cs.append((v, nv3, mode, ni, node, prior, None))
             # a backup that comes from another adapter: it says so in its metadata (the capability recorded there is the OTHER
             # adapter's), and / or it carries the owner's consent to burn the address once where the token cannot be rewritten
